@@ -279,6 +279,7 @@ func (bkt *Bucket) checkForDump(dumpthreshold int) bool {
 // called by hstore, data already flushed
 func (bkt *Bucket) close() {
 	logger.Infof("closing bucket %s", bkt.Home)
+	verifPoint("close.begin")
 	bkt.datas.flush(-1, true)
 	datas, _ := filepath.Glob(fmt.Sprintf("%s/*.data", bkt.Home))
 	if len(datas) == 0 {
@@ -288,6 +289,7 @@ func (bkt *Bucket) close() {
 	bkt.hints.dumpCollisions()
 	bkt.hints.close()
 	bkt.dumpHtree()
+	verifPoint("close.end")
 }
 
 func (bkt *Bucket) dumpHtree() {
@@ -320,6 +322,7 @@ func (bkt *Bucket) removeHtree() {
 	for _, p := range paths {
 		utils.Remove(p)
 	}
+	verifPoint("tree.removed")
 	bkt.TreeID = HintID{0, 0}
 }
 
@@ -613,5 +616,6 @@ func (bkt *Bucket) dumpGCHistroy() {
 	}
 	defer fd.Close()
 	fd.WriteString(fmt.Sprintf("%d", bkt.NextGCChunk))
+	verifPoint("gc.nextgc")
 	logger.Infof("dump %s %d", p, bkt.NextGCChunk)
 }
